@@ -182,12 +182,44 @@ def error_fn_rules(crate, path, loc_fn, res, rule):
     res.add(rule, ob, fs)
 
 
+def find_rec(crate, outer):
+    """the recursive helper that renders the path: the local function `outer` applies to its location
+    parameter and that calls itself (found by role, whatever its name); `outer` itself when it recurses directly"""
+    v = View(outer)
+    for bb, c in v.calls():
+        if c.fn is None or c.krate != "deserr":
+            continue
+        b = find(crate, c.path)
+        if b is None:
+            continue
+        if c.path == outer.path:
+            return outer
+        if any(c2.fn is not None and c2.path == c.path for _, c2 in View(b).calls()):
+            return b
+    return None
+
+
+def returned_pieces(rv, region):
+    """pieces of every value assigned to the return place inside region (calls and plain assignments)"""
+    import strterm
+    outs = []
+    for x in sorted(region):
+        blk = rv.blocks[x]
+        for st in blk["stmts"]:
+            if st["k"] == "assign" and st["place"]["l"] == 0 and not st["place"]["p"]:
+                outs.append((x, strterm.pieces(rv, deep(rv, rv.origin_rv(st["rv"], x)))))
+        tm = blk["term"]
+        if tm["k"] == "call" and tm["dest"]["l"] == 0 and not tm["dest"]["p"]:
+            outs.append((x, strterm.pieces(rv, deep(rv, rv.origin_call(x)))))
+    return outs
+
+
 def loc_rules(crate, base, query, res):
     rule = "C14.LOC"
     outer = find(crate, base)
-    rec = find(crate, base + "::rec")
     fs = []
     ob = 6
+    rec = find_rec(crate, outer) if outer is not None else None
     if outer is None or rec is None:
         res.add(rule, 1, [Finding(rule, base, "location description not found", "")])
         return
@@ -205,13 +237,12 @@ def loc_rules(crate, base, query, res):
         others = [t for lb, t in info["edges"] if t != ot and t not in v.unreach]
         o_only = v.reachable(ot) - set().union(*[v.reachable(x) for x in others])
         n_only = set().union(*[v.reachable(x) for x in others]) - v.reachable(ot)
-        o_calls = [call_name(v, ("call", x)) for x in o_only if v.callee(x) is not None]
-        if o_calls != ["std::string::String::new"]:
+        o_out = returned_pieces(v, o_only)
+        if len(o_out) != 1 or o_out[0][1] != []:
             fs.append(fnd(rule, v, "the origin is not described by the empty string (without article)"))
         args = [deep(v, v.origin(v.blocks[x]["term"]["args"][0])) for x in sorted(n_only) if v.callee(x) is not None and "fmt::rt::Argument" in (v.callee(x).path or "")]
         has_article = any(strip_refs(a) == ("param", 2) for a in args)
-        has_rec = any(a[0] in ("call",) or term_mentions(a, lambda x: x[0] == "call" and x[2] and x[2].endswith("::rec")) for a in args)
-        recs = [x for x in n_only if v.callee(x) is not None and v.callee(x).fn is not None and v.callee(x).path == base + "::rec"]
+        recs = [x for x in n_only if v.callee(x) is not None and v.callee(x).fn is not None and v.callee(x).path == rec.path]
         if not has_article or len(recs) != 1 or strip_refs(deep(v, v.origin(v.blocks[recs[0]]["term"]["args"][0]))) != ("param", 1):
             fs.append(fnd(rule, v, "a non-origin location is not rendered as `<article> <path of this location>`"))
     # rec
@@ -226,65 +257,82 @@ def loc_rules(crate, base, query, res):
         fs.append(fnd(rule, rv, "rec does not dispatch on the pointer variant"))
     else:
         arms = p_c13.arm_regions(rv, info)
+
+        def is_rec_of(p, variant):
+            return p[0] == "val" and p[1][0] == "call" and rv.callee(p[1][1]).path == rec.path and p[1][3] and _is_prev(p[1][3][0], variant)
+
+        def is_field(p, variant, name):
+            t = strip_refs(p[1]) if p[0] == "val" else None
+            return t is not None and t[0] == "field" and t[2] == variant and t[3] == name and strip_refs(t[1]) == ("param", 1)
+
         # Origin => ""
-        oc = [call_name(rv, ("call", x)) for x in arms.get("Origin", set()) if rv.callee(x) is not None]
-        if oc != ["std::string::String::new"]:
+        oo = returned_pieces(rv, arms.get("Origin", set()))
+        if len(oo) != 1 or oo[0][1] != []:
             fs.append(fnd(rule, rv, "the origin does not render as the empty path"))
-        # Key => rec(*prev) + sep + key   (the ancestors first)
+        # Key => <ancestors> "." <key>   (the ancestors first), however it is concatenated
         kreg = arms.get("Key", set())
-        adds = [x for x in kreg if rv.callee(x) is not None and call_name(rv, ("call", x)) == "std::ops::Add::add" and rv.blocks[x]["term"]["dest"]["l"] == 0]
-        okk = False
-        for x in adds:
-            t = deep(rv, rv.origin_call(x))
-            # Add(Add(rec(prev), "."), key)
-            if t[3] and t[3][0][0] == "call" and call_name(rv, t[3][0]) == "std::ops::Add::add":
-                inner = t[3][0]
-                first = inner[3][0]
-                sep = strip_refs(inner[3][1])
-                last = strip_refs(t[3][1])
-                if first[0] == "call" and rv.callee(first[1]).path == base + "::rec" and _is_prev(first[3][0], "Key") and sep == ("const", "str", ".") and \
-                        last[0] == "field" and last[2] == "Key" and last[3] == "key":
-                    okk = True
-        if not okk:
-            fs.append(fnd(rule, rv, "a key step is not rendered as <path of the ancestors> . <key>"))
-        if query:
+        kout = returned_pieces(rv, kreg)
+
+        def full_key(ps):
+            return ps is not None and len(ps) == 3 and is_rec_of(ps[0], "Key") and ps[1] == ("lit", ".") and is_field(ps[2], "Key", "key")
+
+        def bare_key(ps):
+            return ps is not None and len(ps) == 1 and is_field(ps[0], "Key", "key")
+        if not query:
+            if not kout or not all(full_key(ps) for _, ps in kout):
+                fs.append(fnd(rule, rv, "a key step is not rendered as <path of the ancestors> . <key>"))
+        else:
+            fulls = [x for x, ps in kout if full_key(ps)]
+            bares = [x for x, ps in kout if bare_key(ps)]
+            if not fulls or len(fulls) + len(bares) != len(kout):
+                fs.append(fnd(rule, rv, "a key step is not rendered as <path of the ancestors> . <key>"))
             # without the separator exactly when prev is the origin
             ob += 1
             okq = False
+            tests = []
             for bb in sorted(kreg):
                 ms = rv.matches_source(bb)
-                if ms is None:
-                    continue
-                minfo, names = ms
                 i2 = rv.switch_info(bb)
-                tt = rv.edge_target(i2, True)
-                ft = rv.edge_target(i2, False)
-                if names != {"Origin"} or tt is None or ft is None or npath(minfo.get("adt") or "") != "ValuePointerRef":
+                if ms is not None:
+                    minfo, names = ms
+                    tt = rv.edge_target(i2, True)
+                    ft = rv.edge_target(i2, False)
+                    if names != {"Origin"} or tt is None or ft is None or npath(minfo.get("adt") or "") != "ValuePointerRef":
+                        continue
+                    pl = strip_refs(canon(rv, rv.origin_place(minfo["place"])))
+                    tests.append((tt, ft, pl))
+            # `match *prev { Origin => .., _ => .. }` / `if let Origin = prev` / `prev.is_origin()` forms
+            for bb in sorted(kreg):
+                i2 = rv.switch_info(bb)
+                if i2 and i2["kind"] == "discr" and npath(i2.get("adt") or "") == "ValuePointerRef" and i2["place"] is not None:
+                    pl = strip_refs(canon(rv, rv.origin_place(i2["place"])))
+                    if _is_prev(pl, "Key"):
+                        tt = rv.variant_target(i2, "Origin")
+                        fts = [t for lb, t in i2["edges"] if t != tt and t not in rv.unreach]
+                        if tt is not None and len(set(fts)) == 1:
+                            tests.append((tt, fts[0], pl))
+                if i2 and i2["kind"] == "bool" and i2.get("src") and i2["src"]["k"] == "callresult":
+                    cb = i2["src"]["bb"]
+                    if rv.callee(cb).fn is not None and rv.callee(cb).name == "is_origin":
+                        a0 = strip_refs(canon(rv, rv.origin(rv.blocks[cb]["term"]["args"][0])))
+                        if _is_prev(a0, "Key"):
+                            tests.append((rv.edge_target(i2, True), rv.edge_target(i2, False), a0))
+            for tt, ft, pl in tests:
+                if tt is None or ft is None or not _is_prev(pl, "Key"):
                     continue
                 t_only = rv.reachable(tt) - rv.reachable(ft)
-                oc = [call_name(rv, ("call", x)) for x in t_only if rv.callee(x) is not None]
-                pl = strip_refs(canon(rv, rv.origin_place(minfo["place"])))
-                okq = oc == ["std::borrow::ToOwned::to_owned"] and all(a not in t_only for a in adds) and all(a in rv.reachable(ft) for a in adds) and _is_prev(pl, "Key")
+                f_only = rv.reachable(ft) - rv.reachable(tt)
+                if bares and fulls and all(x in t_only for x in bares) and all(x in f_only for x in fulls):
+                    okq = True
             if not okq:
                 fs.append(fnd(rule, rv, "a top-level parameter is not rendered without the leading separator exactly when its parent is the origin"))
-        # Index => format("{}[{index}]", rec(*prev)) : arguments in that order
+        # Index => <ancestors> "[" <index> "]"
         ireg = arms.get("Index", set())
-        args = [(x, deep(rv, rv.origin(rv.blocks[x]["term"]["args"][0]))) for x in sorted(ireg) if rv.callee(x) is not None and "fmt::rt::Argument" in (rv.callee(x).path or "")]
-        arr = None
-        for bb in ireg:
-            for st in rv.blocks[bb]["stmts"]:
-                if st["k"] == "assign" and st["rv"]["k"] == "agg" and st["rv"]["ak"] == "array" and len(st["rv"]["ops"]) == 2:
-                    arr = [deep(rv, rv.origin(o)) for o in st["rv"]["ops"]]
-        oki = False
-        if arr:
-            a0, a1 = arr
-            a0v = a0[3][0] if a0[0] == "call" and a0[3] else a0
-            a1v = a1[3][0] if a1[0] == "call" and a1[3] else a1
-            a0v = strip_refs(a0v)
-            a1v = strip_refs(a1v)
-            oki = a0v[0] == "call" and rv.callee(a0v[1]).path == base + "::rec" and _is_prev(a0v[3][0], "Index") and \
-                a1v[0] == "field" and a1v[2] == "Index" and a1v[3] == "index"
-        if not oki:
+        iout = returned_pieces(rv, ireg)
+
+        def full_index(ps):
+            return ps is not None and len(ps) == 4 and is_rec_of(ps[0], "Index") and ps[1] == ("lit", "[") and is_field(ps[2], "Index", "index") and ps[3] == ("lit", "]")
+        if not iout or not all(full_index(ps) for _, ps in iout):
             fs.append(fnd(rule, rv, "an index step is not rendered as <path of the ancestors>[<index>]"))
     res.add(rule, ob, fs)
 
